@@ -1,6 +1,261 @@
-//! C09 scenarios — filled in below.
+//! C09 scenarios: serialised writers doing read-modify-write increments, readers coming and going,
+//! file growth on the first commit, and the liveness scenario (a reader is never blocked by an
+//! open uncommitted writer).
+
+use std::sync::atomic::{AtomicI64, Ordering};
+use std::sync::{Arc, Mutex};
+
+use serde_json::json;
+
+use crate::real;
 use crate::report::Tier;
-use crate::sched::{ExecResult, RwPolicy};
-use crate::schedx::Judgement;
-pub fn serve_job(_tier: Tier, _ci: usize, _policy: RwPolicy, _max: u64, _path: &str) -> String { "{\"err\":\"not built\"}".into() }
-pub fn replay_one(_tier: Tier, _ci: usize, _policy: RwPolicy, _prefix: &[u8], _path: &str) -> (ExecResult, Vec<Judgement>) { (ExecResult { points: vec![], deadlock: None, diverged: Some("not built".into()), panics: vec![] }, vec![]) }
+use crate::runner::Cfg;
+use crate::sched::{run_execution, Body, Ctx, ExecResult, RwPolicy};
+use crate::schedx::{CaseInfo, Judgement};
+
+#[derive(Clone, Debug)]
+pub struct Case {
+    pub writers: usize,
+    pub readers: usize,
+    pub liveness: bool,
+    /// initial pages of the fresh file (4 = the first commit has to grow the file)
+    pub num_pages: usize,
+    pub bound: usize,
+}
+
+pub fn cases(tier: Tier) -> Vec<Case> {
+    let q = tier == Tier::Quick;
+    let mut v = vec![
+        Case { writers: 1, readers: 1, liveness: true, num_pages: 4, bound: 8 },
+        Case { writers: 1, readers: 1, liveness: true, num_pages: 64, bound: 8 },
+        Case { writers: 2, readers: 1, liveness: false, num_pages: 4, bound: if q { 2 } else { 3 } },
+        Case { writers: 3, readers: 0, liveness: false, num_pages: 4, bound: if q { 1 } else { 2 } },
+        Case { writers: 2, readers: 0, liveness: false, num_pages: 64, bound: if q { 3 } else { 4 } },
+    ];
+    if !q {
+        v.push(Case { writers: 3, readers: 2, liveness: false, num_pages: 4, bound: 2 });
+        v.push(Case { writers: 2, readers: 2, liveness: false, num_pages: 4, bound: 3 });
+    } else {
+        v.push(Case { writers: 2, readers: 2, liveness: false, num_pages: 4, bound: 1 });
+    }
+    v
+}
+
+pub fn case_infos(tier: Tier) -> Vec<CaseInfo> {
+    cases(tier)
+        .iter()
+        .map(|c| CaseInfo {
+            label: format!("{}w{}r{}-pages{}-c{}", c.writers, c.readers, if c.liveness { "-liveness" } else { "" }, c.num_pages, c.bound),
+            describe: json!({"writers": c.writers, "readers": c.readers, "writer_body": if c.liveness { "begin; put; await(reader finished); commit" } else { "begin; v = get(n); yield; put(n, v+1); yield; commit" }, "reader_body": if c.liveness { "begin; dump; drop; signal" } else { "begin; dump; yield; dump; drop" }, "initial_pages": c.num_pages, "preemption_bound": c.bound}),
+        })
+        .collect()
+}
+
+#[derive(Default)]
+struct Obs {
+    writer_reads: Vec<(usize, i64, i64)>, // (writer, commits completed before begin, value read)
+    reader_views: Vec<(usize, i64, Vec<Result<i64, String>>)>,
+    errors: Vec<String>,
+    max_inside: i64,
+}
+
+fn read_counter(tx: &jammdb::Tx) -> Result<i64, String> {
+    match real::guarded(|| -> Result<i64, String> {
+        match tx.get_bucket("ctr") {
+            Ok(b) => match b.get_kv("n") {
+                Some(kv) => std::str::from_utf8(kv.value()).map_err(|e| e.to_string())?.parse::<i64>().map_err(|e| format!("counter value unreadable: {}", e)),
+                None => Ok(0),
+            },
+            Err(jammdb::Error::BucketMissing) => Ok(0),
+            Err(e) => Err(format!("{:?}", e)),
+        }
+    }) {
+        Ok(r) => r,
+        Err(p) => Err(format!("panic while reading: {}", p)),
+    }
+}
+
+pub fn run_one(case: &Case, path: &str, prefix: &[u8], policy: RwPolicy) -> (ExecResult, Vec<Judgement>, String) {
+    let _ = std::fs::remove_file(path);
+    let cfg = Cfg { num_pages: case.num_pages, ..Cfg::default() };
+    let db = match real::guarded(|| cfg.open(path)) {
+        Ok(Ok(db)) => Arc::new(db),
+        other => return (ExecResult { points: vec![], deadlock: None, diverged: Some(format!("cannot create base: {:?}", other.map(|r| r.map(|_| ())))), panics: vec![] }, vec![], String::new()),
+    };
+    let commits_done = Arc::new(AtomicI64::new(0));
+    let inside = Arc::new(AtomicI64::new(0));
+    let obs = Arc::new(Mutex::new(Obs::default()));
+    let mut bodies: Vec<Body> = vec![];
+    for w in 0..case.writers {
+        let db = db.clone();
+        let commits_done = commits_done.clone();
+        let inside = inside.clone();
+        let obs = obs.clone();
+        let liveness = case.liveness;
+        bodies.push(Box::new(move |ctx: &Ctx| {
+            let c0 = commits_done.load(Ordering::SeqCst);
+            let tx = match db.tx(true) {
+                Ok(tx) => tx,
+                Err(e) => {
+                    obs.lock().unwrap().errors.push(format!("writer {}: tx(true): {:?}", w, e));
+                    return;
+                }
+            };
+            let now = inside.fetch_add(1, Ordering::SeqCst) + 1;
+            {
+                let mut o = obs.lock().unwrap();
+                o.max_inside = o.max_inside.max(now);
+            }
+            let v = match read_counter(&tx) {
+                Ok(v) => v,
+                Err(e) => {
+                    obs.lock().unwrap().errors.push(format!("writer {}: {}", w, e));
+                    inside.fetch_sub(1, Ordering::SeqCst);
+                    return;
+                }
+            };
+            obs.lock().unwrap().writer_reads.push((w, c0, v));
+            if !liveness {
+                ctx.yield_now("rmw");
+            }
+            let r = real::guarded(|| -> Result<(), String> {
+                let b = tx.get_or_create_bucket("ctr").map_err(|e| format!("{:?}", e))?;
+                b.put("n", format!("{}", v + 1)).map_err(|e| format!("{:?}", e))?;
+                b.put(format!("pad{}", w), "x".repeat(300)).map_err(|e| format!("{:?}", e))?;
+                Ok(())
+            });
+            if let Err(e) | Ok(Err(e)) = r.map_err(|p| p) {
+                obs.lock().unwrap().errors.push(format!("writer {}: put failed: {}", w, e));
+            }
+            if liveness {
+                // hold the write transaction open until the reader has come and gone
+                ctx.await_flag(0);
+            } else {
+                ctx.yield_now("before-commit");
+            }
+            inside.fetch_sub(1, Ordering::SeqCst);
+            match real::guarded(move || tx.commit()) {
+                Ok(Ok(())) => {
+                    commits_done.fetch_add(1, Ordering::SeqCst);
+                }
+                Ok(Err(e)) => obs.lock().unwrap().errors.push(format!("writer {}: commit: {:?}", w, e)),
+                Err(p) => obs.lock().unwrap().errors.push(format!("writer {}: commit panicked: {}", w, p)),
+            }
+        }));
+    }
+    for r in 0..case.readers {
+        let db = db.clone();
+        let commits_done = commits_done.clone();
+        let obs = obs.clone();
+        let liveness = case.liveness;
+        bodies.push(Box::new(move |ctx: &Ctx| {
+            let c0 = commits_done.load(Ordering::SeqCst);
+            let tx = match db.tx(false) {
+                Ok(tx) => tx,
+                Err(e) => {
+                    obs.lock().unwrap().errors.push(format!("reader {}: tx(false): {:?}", r, e));
+                    return;
+                }
+            };
+            let mut views = vec![read_counter(&tx)];
+            if !liveness {
+                ctx.yield_now("between-reads");
+                views.push(read_counter(&tx));
+            }
+            drop(tx);
+            obs.lock().unwrap().reader_views.push((r, c0, views));
+            if liveness {
+                ctx.set_flag(0);
+            }
+        }));
+    }
+    let res = run_execution(prefix, bodies, policy, true);
+    let mut js = vec![];
+    if let Some(d) = &res.deadlock {
+        js.push(Judgement { class: if case.liveness { "reader_blocked_by_open_writer".into() } else { "deadlock".into() }, detail: d.clone() });
+    }
+    for (t, p) in &res.panics {
+        js.push(Judgement { class: crate::runner::panic_class("thread_panic", p), detail: format!("thread {} panicked: {}", t, p) });
+    }
+    let o = obs.lock().unwrap();
+    for e in &o.errors {
+        js.push(Judgement { class: "thread_error".into(), detail: e.clone() });
+    }
+    let mut outcome = String::new();
+    if res.deadlock.is_none() && res.diverged.is_none() {
+        if o.max_inside > 1 {
+            js.push(Judgement { class: "two_writers_inside".into(), detail: format!("{} write transactions were open at the same time", o.max_inside) });
+        }
+        let mut vals: Vec<i64> = o.writer_reads.iter().map(|x| x.2).collect();
+        vals.sort();
+        outcome = format!("w{:?};", o.writer_reads.iter().map(|x| (x.0, x.2)).collect::<Vec<_>>());
+        for (w, c0, v) in &o.writer_reads {
+            if v < c0 {
+                js.push(Judgement { class: "writer_stale_read".into(), detail: format!("writer {} began after {} commits had completed but read counter {}", w, c0, v) });
+            }
+        }
+        if o.errors.is_empty() && vals != (0..case.writers as i64).collect::<Vec<_>>() {
+            js.push(Judgement { class: "lost_update".into(), detail: format!("writers read counter values {:?}; serialised read-modify-write must read 0..{} once each", vals, case.writers) });
+        }
+        for (r, c0, views) in &o.reader_views {
+            let mut first: Option<i64> = None;
+            for v in views {
+                match v {
+                    Err(e) => js.push(Judgement { class: "reader_read_error".into(), detail: format!("reader {}: {}", r, e) }),
+                    Ok(n) => {
+                        if n < c0 {
+                            js.push(Judgement { class: "reader_stale".into(), detail: format!("reader {} began after {} commits but sees counter {}", r, c0, n) });
+                        }
+                        if *n < 0 || *n > case.writers as i64 {
+                            js.push(Judgement { class: "reader_bad_value".into(), detail: format!("reader {} sees counter {}", r, n) });
+                        }
+                        if let Some(f) = first {
+                            if f != *n {
+                                js.push(Judgement { class: "reader_snapshot_changed".into(), detail: format!("reader {} saw counter {} then {}", r, f, n) });
+                            }
+                        }
+                        first = Some(*n);
+                    }
+                }
+            }
+            outcome.push_str(&format!("r{}:{:?};", r, first));
+        }
+    }
+    drop(o);
+    drop(db);
+    if res.deadlock.is_none() && res.diverged.is_none() && js.is_empty() {
+        let cfg2 = cfg.clone();
+        let want = case.writers as i64;
+        let r = real::guarded(|| -> Result<(i64, Result<(), String>), String> {
+            let db = cfg2.open(path).map_err(|e| format!("{:?}", e))?;
+            let tx = db.tx(false).map_err(|e| format!("{:?}", e))?;
+            let n = read_counter(&tx)?;
+            drop(tx);
+            Ok((n, db.check().map_err(|e| format!("{:?}", e))))
+        });
+        match r {
+            Ok(Ok((n, chk))) => {
+                if n != want {
+                    js.push(Judgement { class: "lost_update".into(), detail: format!("final counter is {} after {} committed increments", n, want) });
+                }
+                if let Err(e) = chk {
+                    js.push(Judgement { class: "dbcheck".into(), detail: format!("after the run DB::check() says {}", e) });
+                }
+            }
+            other => js.push(Judgement { class: "final_state".into(), detail: format!("cannot reopen after the run: {:?}", other.map(|x| x.map(|_| ()))) }),
+        }
+    }
+    (res, js, outcome)
+}
+
+pub fn serve_job(tier: Tier, ci: usize, policy: RwPolicy, max_sched: u64, path: &str, start: Vec<u8>, expand_only: bool) -> String {
+    let cs = cases(tier);
+    let case = &cs[ci];
+    crate::schedx::explore_case(case.bound, start, expand_only, max_sched, |prefix| run_one(case, path, prefix, policy))
+}
+
+pub fn replay_one(tier: Tier, ci: usize, policy: RwPolicy, prefix: &[u8], path: &str) -> (ExecResult, Vec<Judgement>) {
+    let cs = cases(tier);
+    let (r, j, _) = run_one(&cs[ci], path, prefix, policy);
+    (r, j)
+}
